@@ -148,3 +148,16 @@ pub fn fold(h: u64, v: u64) -> u64 {
     let mut s = h ^ v.wrapping_mul(0x9E37_79B9_7F4A_7C15);
     splitmix64(&mut s)
 }
+
+/// The first `n` bytes of `s`, cut back to a character boundary (messages from the code under
+/// test may contain any text: paths with multi-byte names, for instance).
+pub fn head(s: &str, n: usize) -> &str {
+    if s.len() <= n {
+        return s;
+    }
+    let mut k = n;
+    while k > 0 && !s.is_char_boundary(k) {
+        k -= 1;
+    }
+    &s[..k]
+}
